@@ -13,7 +13,7 @@ CHECKS = {
  "C02": dict(
    technique="property-based testing with taint markers: generated html/xml programs of the safe-marking-free fragment over tainted context data and literals, validity oracle on the output (no raw < > \" '), plus a metamorphic round trip (unescape(.html rendering) == .txt rendering) on a fragment where captured values are not transformed",
    level="exploration",
-   text="A flow generator sends tainted strings and captured (safe) values through every string/list filter and operator in every argument position, through the contrib filters and globals (wordwrap, truncate, pluralize, joiner, cycler ...) and the Python-style string methods, through macros, call blocks, set/filter blocks, loops, includes, imports and inherited blocks of *.html/*.xml templates; free-mode programs rewritten into the fragment are mixed in. The output must contain none of < > \" '. For programs that only print/pass/store/loop over/join/re-capture captured values, unescaping the html rendering must give exactly the txt rendering (escaped exactly once). Both escaper implementations (speedups off/on).",
+   text="A flow generator sends tainted strings, tainted byte strings (valid and invalid UTF-8) and captured (safe) values through every string/list filter and operator in every argument position, through the contrib filters and globals (wordwrap, truncate, pluralize, joiner, cycler ...) and the Python-style string methods, through macros, call blocks, set/filter blocks, loops, includes, imports and inherited blocks of *.html/*.xml templates; free-mode programs rewritten into the fragment are mixed in. The output must contain none of < > \" '. For programs that only print/pass/store/loop over/join/re-capture captured values, unescaping the html rendering must give exactly the txt rendering (escaped exactly once). Both escaper implementations (speedups off/on).",
    note="Raw & is not asserted (transforming an already escaped capture legitimately yields &LT; or cut-off entities). Mixed-extension includes are outside the domain.",
    design="3/C02"),
  "C03": dict(
@@ -37,7 +37,7 @@ CHECKS = {
  "C06": dict(
    technique="property-based testing against a reference model plus exhaustive enumeration of small shape vectors: inheritance chains are generated as shape vectors (per template and block: absent / override / super before, after, twice / self-call; extends styles; include and import placements), turned into template sets and compared with the reference interpreter's multi-template semantics; error shapes are enumerated and must come back as errors of the documented kind",
    level="exploration",
-   text="Chains of 1-5 templates over blocks a, b, c nested in a, d nested in c with every override/super choice, extends as first tag / after text / inside if / dynamic / conditional expression, top-level set and outside text, includes (literal, dynamic, lists with missing entries, ignore missing, an included template with its own chain reusing a block name) and import / from-import placed at top level, in blocks, loops, with-blocks, macros and inside a top-level set block whose value the blocks print (every kind x place x level of short chains enumerated); from-import of names only the importer or the globals define; a module variable built by a set block containing a block. All shape vectors over {a, c in a} for chains up to 4 templates are enumerated in the quick tier (5 in thorough). 136 error shapes (inheritance, include and import cycles, double extends, missing parent/include/import, super() without parent or outside a block, required block not overridden) must yield Err with the documented kind, with and without leading text. Hand-written compositions (self.block() in blocks, at the top level of a child, during super() of the same block; include lists; import) are compared with outputs derived by hand from the statement.",
+   text="Chains of 1-5 templates over blocks a, b, c nested in a, d nested in c with every override/super choice, extends as first tag / after text / inside if / dynamic / conditional expression, top-level set and outside text, includes (literal, dynamic, lists with missing entries, ignore missing, an included template with its own chain reusing a block name) and import / from-import placed at top level, in blocks, loops, with-blocks, macros and inside a top-level set block whose value the blocks print (every kind x place x level of short chains enumerated); from-import of names only the importer or the globals define; a module variable built by a set block containing a block. All shape vectors over {a, c in a} for chains up to 4 templates are enumerated in the quick tier (5 in thorough). 136 error shapes (inheritance, include and import cycles, double extends, missing parent/include/import, super() without parent or outside a block, required block not overridden) must yield Err with the documented kind, with and without leading text; so must 156 inheritance cycles of which only a subset of the templates defines a block. Hand-written compositions (self.block() in blocks, at the top level of a child, during super() of the same block; include lists; import) are compared with outputs derived by hand from the statement.",
    note="Oracle = harness/src/refint.rs, written from the documentation. Not generated because the documentation is silent: reading names an included template assigned, super() into a required block, what a macro sees of later top-level assignments.",
    design="3/C06"),
  "C07": dict(
@@ -55,7 +55,7 @@ CHECKS = {
  "C09": dict(
    technique="property-based testing: complete enumeration of the quantifier's box plus proptest-generated boundary cases, differential against a Python slice.indices model",
    level="exploration",
-   text="Every (kind, len, start, stop, step) of the stated box is enumerated (8 value kinds x len 0..=6 x 20 x 20 x 10 bounds, literal and variable form) together with i64-boundary and beyond-i64 rows and random cases; results (kind and items) are compared with an independent model of Python's slicing and subscripting, and every slice result is sliced, subscripted from the end and measured again against the same model; the rows with a bound at or beyond the i64 boundaries also run in isolated worker processes, so that an abort is attributed to its case.",
+   text="Every (kind, len, start, stop, step) of the stated box is enumerated (8 value kinds x len 0..=6 x 20 x 20 x 10 bounds, as literals and as variables of every internal integer width) together with i64-boundary and beyond-i64 rows and random cases; results (kind and items) are compared with an independent model of Python's slicing and subscripting, and every slice result is sliced, subscripted from the end and measured again against the same model; the rows with a bound at or beyond the i64 boundaries also run in isolated worker processes, so that an abort is attributed to its case.",
    note="Trusts model/pyslice.rs (unit tested on CPython examples, cross-checked with python3 in the thorough tier). Out-of-range subscripts are expected to be undefined. Exhaustive only inside the stated box.",
    design="3/C09"),
  "C10": dict(
@@ -65,7 +65,7 @@ CHECKS = {
    note="A lone CR next to a tag is outside the model (undocumented whether it is a line boundary). (b) compares the engine with itself under two printings of the same AST; (d) is judged by model/ws.rs + refint.rs. Not generated (meaning undocumented): end delimiters that begin with a marker character or whitespace, text completing a delimiter across a tag boundary, trailing line comments.",
    design="3/C10"),
  "C11": dict(
-   technique="property-based testing with process isolation: generated recursive program shapes (cycles over macro / call-block / include (literal, list, list with a missing first entry, ignore missing, computed name) / import edges, recursive loops over deep data, block self-calls, super() chains, with random non-recursive work per frame) rendered in worker processes of debug and release builds on 2 MiB and 8 MiB threads; outcome oracle (limit error / Ok, never a signal) plus monotonicity in the limit",
+   technique="property-based testing with process isolation: generated recursive program shapes (cycles over macro / call-block / include (literal, list, list with a missing first entry, ignore missing, computed name) / import edges, recursive loops over deep data and recursive loops that hand themselves the same data again (directly, through an aliased loop object called from a nested loop or with block; a host function counts the levels, so an uncut recursion is a verdict, not a timeout), block self-calls, super() chains, with random non-recursive work per frame) rendered in worker processes of debug and release builds on 2 MiB and 8 MiB threads; outcome oracle (limit error / Ok, never a signal) plus monotonicity in the limit",
    level="exploration",
    text="Each generated shape is rendered with a generated recursion limit in a child process; the child must survive, unbounded shapes must fail with `recursion limit exceeded` somewhere in the cause chain, bounded ones may also succeed, no other error is accepted, and lowering the limit must not make the limit error disappear. Process deaths are attributed to the shape (edge kinds) that was running.",
    note="One listed finding: block self-recursion and deep super() chains overflow 2 MiB stacks in debug builds (pinned accounting); crash signatures naming the block edge are tolerated, all others are violations.",
@@ -73,13 +73,13 @@ CHECKS = {
  "C12": dict(
    technique="property-based testing: metamorphic relation over four configurations (Strict/SemiStrict/Lenient/Chainable renders of the same generated program), plus complete enumeration of the documented site x mode matrix",
    level="exploration",
-   text="Generated programs (free-mode and a mostly-well-typed generator that plants undefined operands in every operand position) are rendered under the four undefined behaviours with a recording context; success under a stricter mode must imply success with byte-identical output under every weaker mode. The documented matrix (print / iterate / truth test / attribute-or-item access / is defined / is undefined / default) is enumerated over 40 syntactic sites x 4 kinds of undefined operand x 4 modes, plus 18 multi-template rows (the same sites after extends where output is discarded, at the top level of imported modules, in included templates, inherited and overriding blocks, call blocks, macro defaults).",
+   text="Generated programs (free-mode and a mostly-well-typed generator that plants undefined operands in every operand position) are rendered under the four undefined behaviours with a recording context; success under a stricter mode must imply success with byte-identical output under every weaker mode. The documented matrix (print / iterate / truth test / attribute-or-item access / is defined / is undefined / default) is enumerated over 40 syntactic sites x 4 kinds of undefined operand x 4 modes, plus 18 multi-template rows (the same sites after extends where output is discarded, at the top level of imported modules, in included templates, inherited and overriding blocks, call blocks, macro defaults), all of it under the default formatter and under a formatter installed with set_formatter.",
    note="The matrix rows are language sites; individual filters are only covered by the monotonicity relation (their strict-mode behaviour differs between filters and is not documented). debug() is excluded.",
    design="3/C12"),
  "C13": dict(
    technique="property-based testing: threshold oracle by bisection plus exhaustive budgets around the threshold and at the integer extremes, history invariants on fuel_levels, metamorphic additivity of fuel cost",
    level="exploration",
-   text="For generated programs (macros, call blocks, includes, imports, recursive loops, inheritance, failing programs) (also programs in which a host callback re-enters the engine through State::render_block or Value::call) the success threshold T is bisected and every budget in [T-40, T+16], sampled budgets below and the extremes up to u64::MAX must give exactly the unlimited outcome (>= T) or an out-of-fuel error (< T); fuel_levels must add up to the budget, equal T-1 and be repeatable; fuel cost must be additive over sequences and linear in the number of nested evaluations.",
+   text="For generated programs (macros, call blocks, includes, imports, recursive loops, inheritance, failing programs) (also loops that stop long before their iterable ends and programs in which a host callback re-enters the engine through State::render_block or Value::call) the success threshold T is bisected and every budget in [T-40, T+16], sampled budgets below and the extremes up to u64::MAX must give exactly the unlimited outcome (>= T) or an out-of-fuel error (< T); fuel_levels must add up to the budget, equal T-1 and be repeatable; fuel cost must be additive over sequences and linear in the number of nested evaluations.",
    note="A budget of 400000 stands in for 'no limit' during bisection; more expensive programs are skipped.",
    design="3/C13"),
  "C14": dict(
@@ -91,13 +91,13 @@ CHECKS = {
  "C15": dict(
    technique="stateful (model-based) property testing: generated operation histories interpreted against the real Environment and an explicit contents model, compared after every step with a freshly built environment; loader-call log as history invariant; concurrent renders sampled",
    level="exploration",
-   text="Histories over add/replace/remove templates in both stores (incl. sources that fail to compile), clear_templates, set_loader over a mutable shared store and edits of it, add/remove filter/test/global/function, clone, renders and compile_expression are applied step by step; after every step every template name must render exactly as in a fresh environment built from the model's contents, renders must be repeatable, the loader must not be asked for stored names, clones must keep their contents, and the final environment renders identically from up to 8 threads. A macro, a module macro or a namespace taken out of a finished render is used again on the thread that made it, on a fresh thread and on the calling thread: same outcome everywhere (144 cases, complete).",
+   text="Histories over add/replace/remove templates in both stores (incl. sources that fail to compile, sources that fail at run time inside open captures), clear_templates, set_loader over a mutable shared store and edits of it, add/remove filter/test/global/function, clone, renders and compile_expression are applied step by step; after every step every template name must render exactly as in a fresh environment built from the model's contents, renders must be repeatable, the loader must not be asked for stored names, clones must keep their contents, and the final environment renders identically from up to 8 threads. A macro, a module macro or a namespace taken out of a finished render is used again on the thread that made it, on a fresh thread and on the calling thread: same outcome everywhere (144 cases, complete).",
    note="Settings that only affect later-loaded templates are outside the histories. Thread interleavings are sampled.",
    design="3/C15"),
  "C16": dict(
    technique="property-based testing: round-trip oracle over generated serde shape trees (every variant/struct/map-key shape), identity oracle for embedded Values, differential of tojson / JSON auto-escape output against an independent strict RFC 8259 parser",
    level="exploration",
-   text="Generated shape trees are instantiated through a Rust enum covering the serde data model and must satisfy T::deserialize(Value::from(Serde(&x))) == x (by-value and by-reference deserializer); structs embedding Values must expose the very same values (safe flag, undefined, object identity), also behind a field whose Serialize impl runs a nested Value conversion; tojson (with/without indent, .txt/.html) and {{ v }} in .json templates must emit text that an independent strict JSON parser accepts and that equals the value under the stated equivalences, and tojson output must not contain < > & '. Both map implementations.",
+   text="Generated shape trees are instantiated through a Rust enum covering the serde data model and must satisfy T::deserialize(Value::from(Serde(&x))) == x (by-value and by-reference deserializer); structs embedding Values must expose the very same values (safe flag, undefined, object identity), also behind a field whose Serialize impl runs a nested Value conversion and inside enum variants that serde buffers (internally tagged enums, flatten); tojson (with/without indent, .txt/.html) and {{ v }} in .json templates must emit text that an independent strict JSON parser accepts and that equals the value under the stated equivalences, and tojson output must not contain < > & '. Both map implementations.",
    note="Trusts model/json.rs (unit tested). Integers above 64 bits and unit-vs-none are outside the round-trip domain as the property states.",
    design="3/C16"),
  "C17": dict(
@@ -109,7 +109,7 @@ CHECKS = {
  "C18": dict(
    technique="property-based testing: generated single-file templates rendered with a recording context object; one-directional inclusion oracle (keys the engine looked up, minus globals, must be contained in undeclared_variables)",
    level="exploration",
-   text="A generator aimed at assignment shapes that read what they assign (set/with/set-block/macro defaults/loop targets/one-branch assignments/special names as plain variables), plus free-mode and tame programs, is rendered over random context subsets with an Object that logs every key requested; the logged keys minus the environment's globals must be a subset of undeclared_variables(false) and of the first segments of undeclared_variables(true).",
+   text="A generator aimed at assignment shapes that read what they assign (set/with/set-block/macro defaults/loop targets/one-branch assignments/special names as plain variables), plus free-mode and tame programs, is rendered over random context subsets with an Object that logs every key requested (in 30 % of the cases after the template was loaded under custom delimiters and the environment syntax switched afterwards); the logged keys minus the environment's globals must be a subset of undeclared_variables(false) and of the first segments of undeclared_variables(true).",
    note="One direction only (over-approximation is allowed). Debug mode off. Three listed findings: a macro's own name is enclosed (looked up) at declaration; a block rendered through self.b() from a macro reads template-level names from the context; loop() recursion from inside a call block runs on the macro context.",
    design="3/C18"),
  "C19": dict(
@@ -119,7 +119,7 @@ CHECKS = {
    note="Assumes the write sequence of a render is deterministic (verified per case against render()).",
    design="3/C19"),
  "C20": dict(
-   technique="schedule enumeration as property-based testing: every placement of up to 3 reload requests at the lock-granularity yield points of up to 3 acquire_env calls (through feature-guarded hooks) x option combinations, history invariant over a logical clock; proptest for longer schedules; real threads: a stress run as smoke test and 2-4 acquirers queued behind a held guard with 0-2 pending requests (at most one rebuild per request under any interleaving)",
+   technique="schedule enumeration as property-based testing: every placement of up to 3 reload requests at the lock-granularity yield points of up to 3 acquire_env calls (through feature-guarded hooks) x option combinations, history invariant over a logical clock; proptest for longer schedules; real threads: a stress run as smoke test and 2-4 acquirers queued behind a held guard with 0-2 pending requests (at most one rebuild per request under any interleaving) and a request issued from a second thread while the first one sits in the freshness callback (never lost)",
    level="exploration",
    text="All schedules of up to 3 acquires and up to 3 requests (placed before the acquire, after the cache lock, between check and flag reset, between reset and creator, inside the creator, after the rebuild, before return, under the held guard) x fast reload x freshness callback x failing creator (returning an error, or panicking with the panic contained) are executed against the real AutoReloader; for every request that returned at logical time t the first successful acquire started after t must return an environment whose creator started (or whose cache was cleared) after t; the environment must not change under a held guard; no rebuild without a request.",
    note="Interleavings are produced deterministically on one thread through the yield-point callback (the notifier lock is not held at those points); preemption inside a critical section is not modelled. The thread stress part only samples.",
